@@ -230,7 +230,7 @@ def run(prop, tier, seed, verdict):
     os.makedirs(workdir, exist_ok=True)
     rng = random.Random(seed * 271 + 17)
     table = led_table()
-    n = 160 if tier == "quick" else 5000
+    n = 320 if tier == "quick" else 5000
     forced = ["full", "partial", "tiny", "empty", "unknown-names"]
     cases = [gen_case(rng, i, table, forced[i] if i < len(forced) else None) for i in range(n)]
     # pre-pass: the real shiftColor(c, 0) of the three class colours of every case
